@@ -6,40 +6,28 @@ package main
 // input makes the target fail with a line "VERIF-VIOLATION sig=<signature> :: <detail>".
 
 import (
-	"fmt"
 	"os"
 	"strings"
 	"testing"
 
-	remoteexecution "github.com/bazelbuild/remote-apis/build/bazel/remote/execution/v2"
 	"github.com/buildbarn/bb-storage/pkg/digest"
-	"github.com/google/uuid"
 
 	"verif/lib/gen"
 )
 
-type fuzzSink struct {
-	v []string
+func newSink() *collectSink {
+	return &collectSink{reportP6: os.Getenv("VERIF_FUZZ_REPORT_P6") != ""}
 }
 
-func (s *fuzzSink) Violation(sig, format string, a ...any) {
-	// Finding P6 is reported by the generated campaign under its own
-	// signature; the fuzz engine stops at the first failing input, so P6 would
-	// hide everything else from it.
-	if sig == sigP6 && os.Getenv("VERIF_FUZZ_REPORT_P6") == "" {
+func finish(t *testing.T, s *collectSink) {
+	if len(s.v) == 0 {
 		return
 	}
-	d := fmt.Sprintf(format, a...)
-	if len(d) > 4000 {
-		d = d[:4000] + "…"
+	var l []string
+	for _, f := range s.v {
+		l = append(l, "VERIF-VIOLATION sig="+f.sig+" :: "+strings.ReplaceAll(f.detail, "\n", "\n\t"))
 	}
-	s.v = append(s.v, "VERIF-VIOLATION sig="+sig+" :: "+strings.ReplaceAll(d, "\n", "\n\t"))
-}
-func (s *fuzzSink) Count(string, int64) {}
-func (s *fuzzSink) finish(t *testing.T) {
-	if len(s.v) > 0 {
-		t.Fatal(strings.Join(s.v, "\n"))
-	}
+	t.Fatal(strings.Join(l, "\n"))
 }
 
 func seedPaths(f *testing.F, write bool) {
@@ -68,18 +56,18 @@ func seedPaths(f *testing.F, write bool) {
 func FuzzReadPath(f *testing.F) {
 	seedPaths(f, false)
 	f.Fuzz(func(t *testing.T, in string) {
-		s := &fuzzSink{}
-		guard(s, "NewDigestFromByteStreamReadPath", func() { checkParsePath(s, false, in) })
-		s.finish(t)
+		s := newSink()
+		bodyReadPath(s, in)
+		finish(t, s)
 	})
 }
 
 func FuzzWritePath(f *testing.F) {
 	seedPaths(f, true)
 	f.Fuzz(func(t *testing.T, in string) {
-		s := &fuzzSink{}
-		guard(s, "NewDigestFromByteStreamWritePath", func() { checkParsePath(s, true, in) })
-		s.finish(t)
+		s := newSink()
+		bodyWritePath(s, in)
+		finish(t, s)
 	})
 }
 
@@ -93,14 +81,9 @@ func FuzzCompactBinary(f *testing.F) {
 	f.Add([]byte{}, "")
 	f.Add([]byte{1}, "a//b")
 	f.Fuzz(func(t *testing.T, b []byte, inst string) {
-		s := &fuzzSink{}
-		guard(s, "NewInstanceName", func() { checkInstanceName(s, inst) })
-		if ok, _ := refValidInstance(inst); ok {
-			if in, err := digest.NewInstanceName(inst); err == nil {
-				guard(s, "NewDigestFromCompactBinary", func() { checkCompactBinary(s, in, b) })
-			}
-		}
-		s.finish(t)
+		s := newSink()
+		bodyCompactBinary(s, b, inst)
+		finish(t, s)
 	})
 }
 
@@ -113,39 +96,19 @@ func FuzzDigest(f *testing.F) {
 	}
 	f.Add(int32(0), 64, strings.Repeat("a", 64), int64(-1), "a/blobs", []byte{})
 	f.Fuzz(func(t *testing.T, fn int32, fallback int, hash string, size int64, inst string, ub []byte) {
-		s := &fuzzSink{}
-		guard(s, "NewInstanceName", func() { checkInstanceName(s, inst) })
-		if ok, _ := refValidInstance(inst); !ok {
-			s.finish(t)
-			return
-		}
-		in, err := digest.NewInstanceName(inst)
-		if err != nil {
-			s.finish(t)
-			return
-		}
-		e := remoteexecution.DigestFunction_Value(fn)
-		guard(s, "Function.NewDigest", func() { checkNewDigest(s, in, e, fallback, hash, size) })
-		if e == remoteexecution.DigestFunction_UNKNOWN {
-			e = inferredByLen[fallback]
-		}
-		cm := comps{fn: e, hash: hash, size: size, inst: inst}
-		if refInvalidClass(cm) == "" {
-			var u uuid.UUID
-			copy(u[:], ub)
-			guard(s, "codecs", func() {
-				d, ok := build(s, cm)
-				if !ok {
-					return
-				}
-				if _, ok := checkWellFormed(s, "Function.NewDigest", d); !ok {
-					return
-				}
-				checkConstructorsAgree(s, cm, d)
-				checkRoundTrips(s, cm, d, u, "other/name")
-				checkAncestors(s, cm, d)
-			})
-		}
-		s.finish(t)
+		s := newSink()
+		bodyDigest(s, fn, fallback, hash, size, inst, ub)
+		finish(t, s)
 	})
+}
+
+// TestParseCorpus keeps the corpus-file reader of the driver honest.
+func TestParseCorpus(t *testing.T) {
+	v, err := parseCorpus([]byte("go test fuzz v1\nint32(9)\nint(0)\nstring(\"a\\xffb\")\nint64(-5)\nstring(\"\")\n[]byte(\"\\x00\\x01\")\n"))
+	if err != nil || len(v) != 6 || v[0].(int32) != 9 || v[1].(int) != 0 || v[2].(string) != "a\xffb" || v[3].(int64) != -5 || v[4].(string) != "" || string(v[5].([]byte)) != "\x00\x01" {
+		t.Fatalf("parseCorpus: %v %v", v, err)
+	}
+	if err := replayCorpus("FuzzDigest", v, newSink()); err != nil {
+		t.Fatal(err)
+	}
 }
